@@ -322,6 +322,9 @@ def annotate_function(src, m, fn, relpath, contract_only):
         frep['transforms'].append('T1: %d self-call(s) of %s redirected to contract twin %s__rec'
                                   % (cnt, name, name))
     if contract_only:
+        # ghost updates / assertions that could not be placed: a contract that talks about ghost state
+        # maintained by them cannot be trusted in the bounded fallback
+        frep['dropped_inserts'] = len(fn['inserts']) + (1 if fn['entry'] else 0) + len(fn['replaces'])
         return edits, frep
     if len(loops) != len(fn['loops']):
         raise Drift('%s: function %s has %d loops, overlay expects %d'
